@@ -220,3 +220,55 @@ def rv_sites(body, rx, dest_rx=None):
                     continue
             out.append((loc, e))
     return out
+
+
+def event_pushes(body, ev_rx):
+    """Vec::push(<…>.events_out, <Event…>) sites whose event expression matches ev_rx"""
+    out = []
+    for loc, t in body.calls("Vec::push"):
+        e = body.call_expr(t)
+        if e[0] != "call" or len(e[2]) != 2:
+            continue
+        tgt = show(e[2][0])
+        if not tgt.endswith("events_out") and "events_out" not in tgt:
+            continue
+        ev = show(e[2][1])
+        if re.search(ev_rx, ev):
+            out.append((loc, "push " + ev[:60]))
+    return out
+
+
+def now_provenance(cx, body, argn, depth=0):
+    """is parameter `argn` of `body` fed, at every call site in the crate, from the endpoint's clock
+    (`X::now_ms(arg1)`) or from the caller's own now-parameter?  returns (ok, witness)"""
+    R = cx.R
+    if depth > 6:
+        return False, "call chain too deep"
+    sites = []
+    for ob in R.all_bodies():
+        for loc, t in ob.calls():
+            if R.local_fn_of(t.get("fn") or "") == body.path and not t.get("unresolved"):
+                sites.append((ob, loc, t))
+    if not sites:
+        return False, "no call site of %s" % body.path
+    for ob, loc, t in sites:
+        i = argn - 1
+        if i >= len(t["args"]):
+            return False, "arity"
+        e = ob.operand_expr(t["args"][i])
+        s = show(e)
+        if re.fullmatch(r"(Client|Server)::now_ms\(arg1\)", s):
+            continue
+        m = re.fullmatch(r"arg(\d+)", s)
+        if m:
+            ok, w = now_provenance(cx, ob, int(m.group(1)), depth + 1)
+            if ok:
+                continue
+            return False, w
+        return False, "%s passes `%s` as the time argument of %s" % (ob.path, s[:80], body.path)
+    return True, ""
+
+
+def rx_comm(op, a, b):
+    """regex for a commutative binary expression whose operands print in canonical (sorted) order"""
+    return r"(?:%s\(%s,%s\)|%s\(%s,%s\))" % (op, a, b, op, b, a)
